@@ -276,6 +276,29 @@ def real_tables():
         'cmp_right_list': T.VerilogOperator(T.VerilogConstant(3), [ast.Eq()], [inner]).toVerilog(),
         'unary': T.VerilogOperator(None, ast.USub(), inner).toVerilog(),
     }
+    # every ordered pair (outer, inner) of binary / comparison operators, inner nested on the left and on the right
+    BO = ['add', 'sub', 'mul', 'fdiv', 'fmod', 'band', 'bor', 'bxor', 'shl', 'shr']
+    CO = ['eq', 'ne', 'lt', 'le', 'gt', 'ge']
+    inv_b = {v: k for k, v in BINOPS.items()}
+    inv_c = {v: k for k, v in CMPOPS.items()}
+
+    def mk(name, l, r_):
+        if name in inv_b:
+            return T.VerilogOperator(l, inv_b[name](), r_)
+        return T.VerilogOperator(l, [inv_c[name]()], [r_])       # a Compare keeps its comparators as a list
+    C = T.VerilogConstant
+    pairs = []
+    for o in BO + CO:
+        for i in BO + CO:
+            try:
+                pairs.append(mk(o, mk(i, C(3), C(2)), C(1)).toVerilog())
+            except Exception as e:
+                pairs.append('raise:' + type(e).__name__)
+            try:
+                pairs.append(mk(o, C(3), mk(i, C(2), C(1))).toVerilog())
+            except Exception as e:
+                pairs.append('raise:' + type(e).__name__)
+    tab['paren_pairs'] = pairs
     return tab
 
 
@@ -306,6 +329,9 @@ def ops_lean(tab):
           f'def parenRight : String := {lean_str(tab["paren"]["right"])}',
           f'def parenCmpRightList : String := {lean_str(tab["paren"]["cmp_right_list"])}',
           f'def parenUnary : String := {lean_str(tab["paren"]["unary"])}', '',
+          '/-- for every ordered pair (outer, inner) of the 10 binary + 6 comparison operators, in table order: the text of',
+          '    `(3 inner 2) outer 1` and of `3 outer (2 inner 1)` as emitted by the real VerilogOperator.toVerilog -/',
+          'def parenPairs : List String := [' + ', '.join(lean_str(x) for x in tab['paren_pairs']) + ']', '',
           'end Gen.TranspileOps', '']
     return '\n'.join(L)
 
